@@ -136,9 +136,11 @@ struct Runner {
         else if (v == "invmodunit") { Poly A = P(0), B = P(1); o << sp(D.invmodunit(R, A, B)); }
         else if (v == "lcm") { Poly A = P(0), B = P(1); o << sp(D.lcm(R, A, B)); }
         // ---- powers
-        else if (v == "pow") { Poly A = P(0); o << sp(D.pow(R, A, (uint64_t)atoll(a.at(1).c_str()))); }
+        else if (v == "pow") { Poly A = P(0); o << sp(D.pow(R, A, (uint64_t)strtoull(a.at(1).c_str(), 0, 10))); }
         else if (v == "powmod") { Poly A = P(0), U = P(2); o << sp(D.powmod(R, A, Integer(a.at(1).c_str()), U)); }
-        else if (v == "powmod.u64") { Poly A = P(0), U = P(2); o << sp(D.powmod(R, A, (uint64_t)atoll(a.at(1).c_str()), U)); }
+        else if (v == "powmod.u64") { Poly A = P(0), U = P(2); o << sp(D.powmod(R, A, (uint64_t)strtoull(a.at(1).c_str(), 0, 10), U)); }
+        else if (v == "powmod.i64") { Poly A = P(0), U = P(2); o << sp(D.powmod(R, A, (int64_t)strtoll(a.at(1).c_str(), 0, 10), U)); }
+        else if (v == "powmod.u32") { Poly A = P(0), U = P(2); o << sp(D.powmod(R, A, (uint32_t)strtoul(a.at(1).c_str(), 0, 10), U)); }
         // ---- fused forms
         else if (v == "axpy") { Poly A = P(0), X = P(1), Y = P(2); o << sp(D.axpy(R, A, X, Y)); }
         else if (v == "axpy.s") { Poly X = P(1), Y = P(2); o << sp(D.axpy(R, S(0), X, Y)); }
